@@ -33,7 +33,7 @@ ASSUMPTIONS = [
     "the theorem quantifies over every evaluator; which exception class the real evaluators raise is the only fact about "
     "them it uses, and engine.real_eval reports it per call (is_expr flag)",
 ]
-FAM = progs.family(p_bad=0.12, p_items=0.25, p_retry=0.25, p_delay=0.2, p_input=0.4, n_tasks=(2, 6),
+FAM = progs.family(p_bad=0.12, p_items=0.35, w_conc_var=4, p_pub_d=0.3, p_jinja=0.4, p_retry=0.25, p_delay=0.2, p_input=0.4, n_tasks=(2, 6),
                    w_ctrl=0.5, w_malformed=0.05, steps=(10, 50), p_fail=0.1)
 
 
@@ -50,7 +50,7 @@ def nontrivial(r):
 
 def run(ctx):
     return common.conductor_run(
-        ctx, "C11", FAM, common.project_full, monitors.c11, features, nontrivial, 400, 6000,
+        ctx, "C11", FAM, common.project_full, monitors.c11, features, nontrivial, 1200, 8000,
         rule="generated definitions in which each expression-bearing position (input default, vars, action input, "
              "with-items list/concurrency, delay, retry count/delay/when, transition when, publish, output) is replaced "
              "with probability 0.12 by a failing expression (undefined variable, missing key, wrong type, unknown "
